@@ -40,7 +40,7 @@ BATTERY = {
             ("edit", 120, 6000), ("nonabs", 100, 504), ("slow", 40, 108),
             ("zerow", 36, 36)],
     "C14": [("stop", 800, 40000), ("dead", 250, 12000), ("diag", 160, 160), ("nonabs", 60, 504),
-            ("samerow", 144, 144), ("loopdiag", 72, 72), ("slowrew", 36, 72)],
+            ("samerow", 144, 144), ("loopdiag", 72, 72), ("slowrew", 36, 72), ("forced", 64, 128)],
     "C10": [("hist", 250, 12000), ("edit", 120, 6000), ("zerow", 36, 36)],
     "C13": [("perm", 400, 20000)],
 }
